@@ -102,7 +102,7 @@ def discharge_contracts(rep: Report, contracts, timeout_ms, jobs=None):
         if not r.obligations:
             rep.errors.append(f"{c.name}: zero obligations generated")
         shifts = D.shifts_by_name(c.shifts)
-        qs = D.prepare(r.obligations, shifts_for=shifts)
+        qs = D.prepare(r.obligations, shifts_for=shifts, units=c.units)
         for q in qs:
             q.kind = "ob"
             q.contract = c
